@@ -22,9 +22,9 @@ theorem ov_loop1_step (x : Tr.JEntry × Bytes) (S : List (Tr.JEntry × Bytes)) :
   obtain ⟨je, d⟩ := x
   unfold Tr.array_overlap_jsonb.loop1 ovStep keyCmp
   dsimp only
-  cases Rs.setContains (Rs.cmpLex Tr.JEntry.cmp Rs.cmpBytes) S (je, d)
-  · simp only [Bool.not_false, if_true, Ctl.pure_eq', Ctl.val_bind', Rs.loopStep_val']
-  · simp only [Bool.not_true, Bool.false_eq_true, if_false, Ctl.pure_eq', Ctl.val_bind', Rs.loopStep_val']
+  cases h : Rs.setContains (Rs.cmpLex Tr.JEntry.cmp Rs.cmpBytes) S (je, d) <;>
+    simp only [Bool.not_false, Bool.not_true, if_true, if_false, Bool.false_eq_true, Ctl.pure_eq', Ctl.val_bind',
+      Rs.loopStep_val']
 
 /-- the set holds exactly the identities of the items seen -/
 theorem ov_fold : ∀ (items : List (JE × Bytes)) (S : List (Tr.JEntry × Bytes)) (seen : List (Nat × Nat × Bytes)),
